@@ -71,9 +71,13 @@ theorem resolveCalled_frame_both :
     intro f args kwn kwv ihf iha ihk st hst h
     simp only [noCalledLam, Bool.and_eq_true] at h
     obtain ⟨⟨⟨h0, h1⟩, h2⟩, h3⟩ := h
+    have hf := ihf st hst h1
+    have ha := iha st hst h2
+    have hk := ihk st hst h3
     cases f with
     | lam ps b => simp at h0
-    | _ => simp only [resolveCalled]; rw [ihf st hst h1, iha st hst h2, ihk st hst h3]
+    | name x => simp only [resolveCalled] at hf ⊢; rw [hf, ha, hk]
+    | _ => simp only [resolveCalled] at hf ⊢; simp only [resolveCalled, ha, hk, hf] <;> simp_all [resolveCalled]
   case case5 =>
     intro ps b ih st hst h
     simp only [resolveCalled]
@@ -90,10 +94,12 @@ theorem resolveCalled_frame (e : Expr) (h : noCalledLam e = true) : resolveCalle
   resolveCalled_frame_both.1 e [] (by intro x e; simp [stackGet]) h
 
 /-- **C05 (helpers that cannot be inlined)**: a called lambda whose parameter count differs from the
-    number of positional arguments is returned untouched. -/
+    number of positional arguments stays a call of that lambda; its body and arguments are still
+    resolved (the lambda's own parameters hiding outer arguments). -/
 theorem uninlinable_left (st : List Frame) (ps : List String) (b : Expr) (args : List Expr)
     (kwn : List String) (kwv : List Expr) (h : ps.length ≠ args.length) :
-    resolveCalled st (.call (.lam ps b) args kwn kwv) = .call (.lam ps b) args kwn kwv := by
+    resolveCalled st (.call (.lam ps b) args kwn kwv) =
+      .call (.lam ps (resolveCalled (hideFrame ps :: st) b)) (resolveCalledL st args) kwn (resolveCalledL st kwv) := by
   simp [resolveCalled, h]
 
 /-- a body that is just a parameter -/
